@@ -39,6 +39,9 @@ CLAIMED = {
  "C03": ("history of public operations checked after every step against a sequential model (fresh model with the same state_dict and data); cache-event monitors",
          "Runtime monitoring of operation histories: for ten model families (exact default / batched / KISS-GP fixed and data-dependent grid / SGPR; SVGP whitened, unwhitened, mean-field, batch-decoupled; LMC multitask) every sequence of the statement's operations up to length 2 (thorough: 3 for three exact families) and sampled sequences up to length 8 is executed on the real objects; after every step the prediction (two settings tuples) must equal that of a freshly constructed model holding the same state_dict and data. Monitors on memoize._add_to_cache and every _clear_cache stamp cache events with the history step for the violation report. Decides executed histories only.",
          "Both sides run the library's own algorithm (staleness, not correctness, is decided here; correctness is C01/C14); variational families start from initialised variational parameters.", "DESIGN.md §4 C03"),
+ "C18": ("history-shaped round-trip monitor: at every save point of generated histories the model is restored by state_dict/pickle/deepcopy and compared with the original",
+         "Runtime monitoring at save points: for fourteen model families (exact default/batched/KISS-GP/SGPR/priors+custom constraints/RFF, six variational strategies/distributions incl. natural, LMC multitask, model list) after every step of generated train/eval/predict histories the live object is pickled and deep-copied first (caches as the history left them), then restored from its state_dict into a fresh model built with different prior parameters and constraint bounds; prior prediction, posterior/variational prediction, objective value and gradients, training flags, prior parameters and constraint bounds must equal the original's. Decides executed (family, history, mechanism) cells only.",
+         "Equality at 1e-9 (pickle/deepcopy) and 1e-7 (state_dict into a fresh model, caches recomputed).", "DESIGN.md §4 C18"),
 }
 NOT_YET = "check not built yet in this round (see DESIGN.md §9 build order); not claimed until its monitor exists and is silent on the unchanged tree"
 
